@@ -5,6 +5,9 @@
    destinations modelled here); every `w.write_all(..)?` of the Rust text is one [write_all] step
    followed by [try_] (the `?` operator) — the chunks are never pre-concatenated.
 
+   The usize byte counter is an unbounded [N]: it only ever adds lengths of chunks that were
+   written completely (C20_count_is_written), so it is bounded by the bytes held in memory.
+
    Not modelled: `debug_assert!(!name.eq_ignore_ascii_case(b"status"))` (response.rs:81). It is a
    documented precondition of write_headers ("which must not be used in `headers`"); header lists
    containing such a name are outside the property's domain and are kept out of the generator. *)
